@@ -112,10 +112,17 @@ theorem wf_mulVec (m : CSM K) (v r : Vec K) (hlen : m.rows.length = m.major)
 theorem wf_mulVecEntries (rows : List (Row K)) (v : List (Entry K)) :
     WF rows.length (mulVecEntries rows v) := EtVerif.wf_mulVecEntries rows v
 
-/-- The product loop stores exactly the non-zero row products: an entry is stored iff … -/
+/-- The product loop stores exactly the non-zero row products (row `i` ↦ `VecDot(row i, v)`):
+    nothing else is stored, no explicit zero is stored, no non-zero product is dropped. -/
+theorem mulVecEntries_mem_iff (rows : List (Row K)) (v : List (Entry K)) (x : Entry K) :
+    x ∈ mulVecEntries rows v ↔
+      x.idx < rows.length ∧ x.val = vecDot (rows.getD x.idx []) v ∧ x.val ≠ 0 :=
+  mem_mulVecEntries_iff
+
+/-- corollary: every stored value of the product is non-zero -/
 theorem mulVecEntries_nonzero (rows : List (Row K)) (v : List (Entry K)) :
-    ∀ e ∈ mulVecEntries rows v, e.val ≠ 0 ∧ e.val = vecDot (rows.getD e.idx []) v :=
-  fun _ he => ⟨(mem_mulVecEntries he).2.2, (mem_mulVecEntries he).2.1⟩
+    ∀ e ∈ mulVecEntries rows v, e.val ≠ 0 :=
+  fun _ he => (mem_mulVecEntries he).2.2
 
 /-! ## 6. well-formedness is preserved -/
 
